@@ -88,6 +88,8 @@ def observe_fields(om, named):
             fl = ()
         elif isinstance(o, getattr(om, "Chair", ())):
             fl = ("chairs", "guides")
+        elif isinstance(o, getattr(om, "Keeper", ())):
+            fl = ("keeps",)
         elif isinstance(o, getattr(om, "VOrg", ())):
             fl = ("members",)
         elif isinstance(o, getattr(om, "VPerson", ())):
@@ -100,7 +102,7 @@ def observe_fields(om, named):
                 if v is not None:
                     out.add((n, f, name_of.get(id(v), "<foreign>")))
             else:
-                items = list(v)
+                items = list(v) if v is not None else []
                 raw[(n, f)] = [name_of.get(id(x), "<foreign:%s>" % type(x).__name__) for x in items]
                 for x in items:
                     out.add((n, f, name_of.get(id(x), "<foreign:%s>" % type(x).__name__)))
